@@ -254,6 +254,9 @@ void h_b_createKeySwitchKey(void) {
     LweParams op; *(double *)&op.alpha_min = VERIF_ALPHA; *(int32_t *)&op.n = 3; LweParams ipar; *(int32_t *)&ipar.n = B_n; *(double *)&ipar.alpha_min = 0.25;
     LweKeySwitchKey ks; ks.n = B_n; ks.t = B_T; ks.basebit = B_BB; ks.base = B_BASE; ks.out_params = &op; ks.ks0_raw = rows; ks.ks1_raw = l1; ks.ks = l0;
     int32_t inkey[B_n]; LweKey in; in.params = &ipar; in.key = inkey; LweKey out; out.params = &op;
+    /* history independence: an earlier key-switching key with another noise level may have been created in this process */
+    { int in_has_first; if (in_has_first) { LweParams op0; *(double *)&op0.alpha_min = 0.25; *(int32_t *)&op0.n = 3; LweKey out0; out0.params = &op0;
+        g_out = &out0; g_alpha = 0.25; nd = bad = n_triv = n_enc = 0; ks.out_params = &op0; lweCreateKeySwitchKey(&ks, &in, &out0); ks.out_params = &op; } }
     g_out = &out; g_alpha = op.alpha_min; nd = bad = n_triv = n_enc = 0;
     lweCreateKeySwitchKey(&ks, &in, &out);
     __CPROVER_assert(nd == SIZEKS && bad == 0, "n*t*(base-1) centred gaussian draws, all with the OUTPUT key's alpha_min; rows use that alpha and the output key");
